@@ -3,6 +3,8 @@ package main
 import (
 	"encoding/json"
 	"fmt"
+	pipeline "github.com/buildkite/go-pipeline"
+	"github.com/buildkite/go-pipeline/ordered"
 	"math/rand/v2"
 	"strings"
 
@@ -141,6 +143,11 @@ func c04Run(text string, envMap map[string]string, reps int, w *c04Walk) (what s
 	var firstJSON string
 	for rep := 0; rep < reps; rep++ {
 		p, _ := parseText(text)
+		if rep == 1 {
+			// marshalled before it is interpolated: observers change nothing
+			_, _ = safeJSONMarshal(p)
+			_, _ = safeYAMLMarshal(p)
+		}
 		renv := refmodel.NewEnv(false, envMap)
 		rerr := p.Interpolate(renv, false)
 		if werr != nil {
@@ -251,8 +258,191 @@ func checkC04(c *run.Ctx) {
 			c.Sample(map[string]any{"document": rd.Text, "env": c04Env()})
 		}
 	})
+	// Pipelines built in code rather than parsed: unknown fields hold the typed containers a program would use
+	// (map[string]string, []string, *ordered.Map[string,string], *string next to the untyped ones)
+	c.Phase("typed", func() {
+		c.Parallel("typed", c.N(3000, 100000), func(i int, r *rand.Rand) {
+			id := run.CaseID("typed", i)
+			uid := 0
+			str := func() string {
+				uid++
+				ref := c04Refs[r.IntN(len(c04Refs))]
+				if r.IntN(2) == 0 {
+					return fmt.Sprintf("%s#%d", ref, uid)
+				}
+				return fmt.Sprintf("%d#%s", uid, ref)
+			}
+			var build func(depth int) (any, *doc.Node)
+			build = func(depth int) (any, *doc.Node) {
+				k := r.IntN(9)
+				if depth >= 3 {
+					k = r.IntN(6)
+				}
+				n := 1 + r.IntN(4)
+				if r.IntN(10) == 0 {
+					n = 9 + r.IntN(12)
+				}
+				switch k {
+				case 0:
+					s := str()
+					return s, doc.S(s)
+				case 1:
+					s := str()
+					return &s, doc.S(s)
+				case 2:
+					l, d := []string{}, doc.L()
+					d.Seq = []*doc.Node{}
+					for j := 0; j < n; j++ {
+						s := str()
+						l, d.Seq = append(l, s), append(d.Seq, doc.S(s))
+					}
+					return l, d
+				case 3:
+					m, d := map[string]string{}, &doc.Node{Kind: doc.KMap, Map: []doc.Pair{}}
+					for j := 0; j < n; j++ {
+						ks, vs := str(), str()
+						m[ks] = vs
+						d.Map = append(d.Map, doc.P(ks, doc.S(vs)))
+					}
+					return m, d
+				case 4:
+					m, d := ordered.NewMap[string, string](n), &doc.Node{Kind: doc.KMap, Map: []doc.Pair{}, OrderedKeys: true}
+					for j := 0; j < n; j++ {
+						ks, vs := str(), str()
+						m.Set(ks, vs)
+						d.Map = append(d.Map, doc.P(ks, doc.S(vs)))
+					}
+					return m, d
+				case 5:
+					return int64(uid), doc.I(int64(uid))
+				case 6:
+					l, d := []any{}, doc.L()
+					d.Seq = []*doc.Node{}
+					for j := 0; j < n; j++ {
+						v, vd := build(depth + 1)
+						l, d.Seq = append(l, v), append(d.Seq, vd)
+					}
+					return l, d
+				case 7:
+					m, d := map[string]any{}, &doc.Node{Kind: doc.KMap, Map: []doc.Pair{}}
+					for j := 0; j < n; j++ {
+						ks := str()
+						v, vd := build(depth + 1)
+						m[ks] = v
+						d.Map = append(d.Map, doc.P(ks, vd))
+					}
+					return m, d
+				default:
+					m, d := ordered.NewMap[string, any](n), &doc.Node{Kind: doc.KMap, Map: []doc.Pair{}, OrderedKeys: true}
+					for j := 0; j < n; j++ {
+						ks := str()
+						v, vd := build(depth + 1)
+						m.Set(ks, v)
+						d.Map = append(d.Map, doc.P(ks, vd))
+					}
+					return m, d
+				}
+			}
+			menv := refmodel.NewEnv(false, c04Env())
+			var expand func(n *doc.Node) (*doc.Node, error)
+			expand = func(n *doc.Node) (*doc.Node, error) {
+				switch n.Kind {
+				case doc.KStr:
+					s, err := interpolate.Interpolate(menv, n.Str)
+					return doc.S(s), err
+				case doc.KSeq:
+					o := doc.L()
+					o.Seq = []*doc.Node{}
+					for _, e := range n.Seq {
+						x, err := expand(e)
+						if err != nil {
+							return nil, err
+						}
+						o.Seq = append(o.Seq, x)
+					}
+					return o, nil
+				case doc.KMap:
+					o := &doc.Node{Kind: doc.KMap, Map: []doc.Pair{}, OrderedKeys: n.OrderedKeys}
+					for _, p := range n.Map {
+						ks, err := interpolate.Interpolate(menv, p.Key)
+						if err != nil {
+							return nil, err
+						}
+						x, err := expand(p.Val)
+						if err != nil {
+							return nil, err
+						}
+						o.Map = append(o.Map, doc.P(ks, x))
+					}
+					return o, nil
+				}
+				return n, nil
+			}
+			type slot struct {
+				name  string
+				get   func() any
+				model *doc.Node
+			}
+			var slots []slot
+			mk := func(name string, holder map[string]any) {
+				v, d := build(0)
+				if _, isPtr := v.(*string); isPtr && r.IntN(2) == 0 {
+					v, d = build(1)
+				}
+				holder["typed"] = v
+				slots = append(slots, slot{name, func() any { return holder["typed"] }, d})
+			}
+			step := &pipeline.CommandStep{Command: "c", RemainingFields: map[string]any{}}
+			group := &pipeline.GroupStep{Steps: pipeline.Steps{&pipeline.CommandStep{Command: "d", RemainingFields: map[string]any{}}}, RemainingFields: map[string]any{}}
+			trig := &pipeline.TriggerStep{Contents: map[string]any{"trigger": "t"}}
+			wait := &pipeline.WaitStep{Contents: map[string]any{"wait": nil}}
+			input := &pipeline.InputStep{Contents: map[string]any{"block": "b"}}
+			unk := &pipeline.UnknownStep{}
+			p := &pipeline.Pipeline{Steps: pipeline.Steps{step, group, trig, wait, input, unk}, RemainingFields: map[string]any{}}
+			mk("command step", step.RemainingFields)
+			mk("group step", group.RemainingFields)
+			mk("command step in group", group.Steps[0].(*pipeline.CommandStep).RemainingFields)
+			mk("trigger step", trig.Contents)
+			mk("wait step", wait.Contents)
+			mk("input step", input.Contents)
+			mk("pipeline", p.RemainingFields)
+			{
+				v, d := build(0)
+				unk.Contents = v
+				slots = append(slots, slot{"unknown step contents", func() any { return unk.Contents }, d})
+			}
+			plugCfg, plugDoc := build(0)
+			step.Plugins = pipeline.Plugins{{Source: "p#v1", Config: plugCfg}}
+			slots = append(slots, slot{"plugin config", func() any { return step.Plugins[0].Config }, plugDoc})
+			var ierr error
+			if pi := run.Guard(func() { ierr = p.Interpolate(refmodel.NewEnv(false, c04Env()), false) }); pi != nil {
+				c.Violation(id, map[string]any{"what": "Interpolate panicked on a pipeline built in code: " + pi.Value, "stack": pi.Stack})
+				return
+			}
+			c.Eval(1)
+			if ierr != nil {
+				c.Violation(id, map[string]any{"what": "Interpolate failed on a pipeline built in code (all references resolve): " + ierr.Error()})
+				return
+			}
+			for _, sl := range slots {
+				want, err := expand(sl.model)
+				if err != nil {
+					c.Infra("typed: model expansion failed: %v", err)
+					return
+				}
+				got := anyToDoc(sl.get())
+				if diff := doc.Equal(want, got, doc.EqOpts{HonourOrderedKeys: true}); diff != "" {
+					c.Violation(id, map[string]any{"what": "typed containers in the unknown fields of a " + sl.name + " built in code: after interpolation they differ from the single-pass expansion of every string: " + diff,
+						"before": clip(sl.model.String(), 3000), "after": clip(got.String(), 3000), "go_type": fmt.Sprintf("%T", sl.get())})
+					return
+				}
+				c.Count("typed_container_slots_checked", 1)
+				c.Count(fmt.Sprintf("typed_top_level_%T", sl.get()), 1)
+			}
+		})
+	})
 	c.Finish("exploration",
-		"grammar-generated documents whose every string (values and keys, every position class: labels, keys, commands, plugin sources and configs, step env names and values, matrix setup/adjustments incl. skip and extras, cache settings, group/wait/input/trigger/unknown contents, pipeline extras and env block) is built around reference snippets ($X, ${X}, escaped $$X and \\$X, defaults, substrings, unset, nested defaults; X expands to another reference to expose a second pass) and carries a unique id; Go maps of up to 40 entries with renamed keys; YAML aliases sharing subtrees; every tenth case carries a required-or-fail reference. Expected = the twin parsed from the same text, converted by an independent reflective walker and mapped through the interpolate library once per string (env block per the C10 fold); each case is run 12 (quick) / 60 (thorough) times on fresh parses and all runs compared. distinct_nontrivial counts distinct feature vectors",
+		"a `typed` phase builds pipelines in code whose unknown fields, step contents and plugin configs hold typed Go containers (string, *string, []string, map[string]string, *ordered.Map[string,string], []any, map[string]any, *ordered.Map[string,any], nested) and compares them with the model expansion after Interpolate; grammar-generated documents whose every string (values and keys, every position class: labels, keys, commands, plugin sources and configs, step env names and values, matrix setup/adjustments incl. skip and extras, cache settings, group/wait/input/trigger/unknown contents, pipeline extras and env block) is built around reference snippets ($X, ${X}, escaped $$X and \\$X, defaults, substrings, unset, nested defaults; X expands to another reference to expose a second pass) and carries a unique id; Go maps of up to 40 entries with renamed keys; YAML aliases sharing subtrees; every tenth case carries a required-or-fail reference. Expected = the twin parsed from the same text, converted by an independent reflective walker and mapped through the interpolate library once per string (env block per the C10 fold); each case is run 12 (quick) / 60 (thorough) times on fresh parses and all runs compared. distinct_nontrivial counts distinct feature vectors",
 		nil,
 		[]string{"github.com/buildkite/interpolate is trusted for single-string expansion", "signatures are expected untouched", "post-expansion key collisions are avoided by unique ids (collision semantics are not part of the property)"})
 }
